@@ -356,7 +356,6 @@ class _Generator(Generator):
                     length_type),
                 '    decoder_p,',
                 '    {});'.format(type_.number_of_bits),
-                'dst_p->{}length += {}u;'.format(location, checker.minimum)
             ]
 
             if not does_bits_match_range(type_.number_of_bits,
@@ -364,13 +363,19 @@ class _Generator(Generator):
                                          checker.maximum):
                 decode_lines += [
                     '',
-                    'if (dst_p->{}length > {}u) {{'.format(location, checker.maximum),
+                    'if (dst_p->{}length > {}u) {{'.format(
+                        location,
+                        checker.maximum - checker.minimum),
                     '    decoder_abort(decoder_p, EBADLENGTH);',
                     '',
                     '    return;',
                     '}',
                     ''
                 ]
+
+            decode_lines += [
+                'dst_p->{}length += {}u;'.format(location, checker.minimum)
+            ]
 
             decode_lines += [
                 'decoder_read_bytes(decoder_p,',
@@ -642,7 +647,6 @@ class _Generator(Generator):
                     type_name),
                 '    decoder_p,',
                 '    {});'.format(type_.number_of_bits),
-                'dst_p->{}length += {}u;'.format(location, checker.minimum),
                 ''
             ]
 
@@ -650,13 +654,20 @@ class _Generator(Generator):
                                          checker.minimum,
                                          checker.maximum):
                 first_decode_lines += [
-                    'if (dst_p->{}length > {}u) {{'.format(location, checker.maximum),
+                    'if (dst_p->{}length > {}u) {{'.format(
+                        location,
+                        checker.maximum - checker.minimum),
                     '    decoder_abort(decoder_p, EBADLENGTH);',
                     '',
                     '    return;',
                     '}',
                     ''
                 ]
+
+            first_decode_lines += [
+                'dst_p->{}length += {}u;'.format(location, checker.minimum),
+                ''
+            ]
 
             first_decode_lines += [
                 'for ({0} = 0; {0} < dst_p->{1}length; {0}++) {{'.format(
